@@ -813,7 +813,7 @@ func srGenInput(c *Ctx, i int, wellFormed bool) *srInput {
 	rng := c.Rng
 	ver := srVersions[i%len(srVersions)]
 	if i%len(srVersions) >= 6 && rng.Intn(2) == 0 {
-		ver = srVersions[rng.Intn(6)]
+		ver = "1" // the v1 algorithm has its own resolver: give it a quarter of the histories
 	}
 	n := 5 + rng.Intn(c.Scale(26, 40))
 	h := srGenHistory(rng, ver, n)
